@@ -53,8 +53,11 @@ class PathRecord:
 
 
 def mk_solver(timeout_ms):
+    """Fresh (non-incremental) solver with a soft timeout and a resource limit: z3's timeout alone is not
+    honoured in every phase of its non-linear procedure (measured: a 3 s query running > 70 s)."""
     s = z3.Solver()
     s.set("timeout", int(timeout_ms))
+    s.set("rlimit", int(timeout_ms) * 6000)      # ~3e6 units/s measured -> about twice the soft timeout
     return s
 
 
